@@ -125,6 +125,39 @@ fn gives_check(p: &Pos1, m: Mv) -> bool {
     p.make(m).in_check()
 }
 
+/// C07 only: the small text parsers are safe public calls too
+fn text_forms(ctx: &mut Ctx) {
+    use std::str::FromStr;
+    let n = ctx.tape.range(1, 4);
+    for _ in 0..n {
+        let len = ctx.tape.range(0, 6);
+        let mut b: Vec<u8> = Vec::new();
+        for _ in 0..len {
+            b.push(*ctx.tape.pick(b"abcdefghABCDEFGH0123456789-xqrbnkpQRBNKP=+ \0\xff"));
+        }
+        let text = String::from_utf8_lossy(&b).to_string();
+        op(Op::Parse, || {
+            let _ = chess_movegen::ChessMove::from_ascii_bytes(&b);
+            let _ = chess_movegen::ChessMove::from_str(&text);
+            let _ = chess_bitboard::Pos::from_ascii_bytes(&b);
+            let _ = chess_bitboard::Pos::from_str(&text);
+            let _ = chess_bitboard::File::from_ascii_bytes(&b);
+            let _ = chess_bitboard::Rank::from_ascii_bytes(&b);
+            let _ = chess_bitboard::File::from_str(&text);
+            let _ = chess_bitboard::Rank::from_str(&text);
+            let _ = chess_bitboard::Piece::from_ascii_bytes(&b);
+            let _ = chess_bitboard::PromotionPiece::from_ascii_bytes(&b);
+            if let Some(&c) = b.first() {
+                let _ = chess_bitboard::File::from_ascii_byte(c);
+                let _ = chess_bitboard::Rank::from_ascii_byte(c);
+                let _ = chess_bitboard::Piece::from_ascii_byte(c);
+                let _ = chess_bitboard::PromotionPiece::from_ascii_byte(c);
+            }
+        });
+        ctx.stats.bump("c07.text-forms-parsed");
+    }
+}
+
 /// compare the SUT's generated move list with the references.  Returns the
 /// model's sorted legal list.
 pub fn check_legals(ctx: &mut Ctx, s: &Session) -> Step<Vec<Mv>> {
@@ -255,6 +288,47 @@ fn mon_c01(ctx: &mut Ctx, s: &Session, l1: &[Mv], byz: u32) -> Step {
         ctx.stats.bump("c01.is_legal.illegal-offers");
         if r {
             return ctx.fail(Prop::C01, "is_legal.mismatch", format!("offer={why};answer=true"), format!("is_legal({}) = true for an illegal triple in {fen}", m.text()));
+        }
+    }
+    // the masked entry point of the generator: over masks that partition the board it must
+    // yield, all parts together, exactly the legal moves
+    if ctx.tape.choose(4) == 3 {
+        let parts: Vec<u64> = match ctx.tape.choose(4) {
+            0 => (0..8).map(|f| 0x0101_0101_0101_0101u64 << f).collect(),
+            1 => (0..8).map(|r| 0xffu64 << (8 * r)).collect(),
+            2 => {
+                let hi = ctx.tape.choose(1 << 16) as u64;
+                let lo = ctx.tape.choose(1 << 16) as u64;
+                let a = (hi << 16 | lo).wrapping_mul(0x9E37_79B9_7F4A_7C15);
+                vec![a, !a]
+            }
+            _ => {
+                // the destinations of the legal moves one by one, and the rest of the board
+                let mut v: Vec<u64> = l1.iter().map(|m| 1u64 << m.to).collect();
+                v.sort();
+                v.dedup();
+                let covered = v.iter().fold(0u64, |a, b| a | b);
+                v.push(!covered);
+                v
+            }
+        };
+        let mut got: Vec<Mv> = Vec::new();
+        for part in &parts {
+            let part = *part;
+            got.extend(op(Op::Generate, || s.board.legals_masked(sut::bb(part)).map(sut::unmv).collect::<Vec<Mv>>()));
+        }
+        got.sort();
+        ctx.stats.bump("c01.masked-partitions");
+        if got != l1 {
+            let missing = l1.iter().find(|m| !got.contains(m));
+            let extra = got.iter().find(|m| !l1.contains(m));
+            let what = match (missing, extra) {
+                (Some(m), _) => format!("{} missing", m.text()),
+                (_, Some(m)) => format!("{} extra", m.text()),
+                _ => "a move yielded twice".to_string(),
+            };
+            let feat = missing.or(extra).map(|m| move_features(&s.model, *m)).unwrap_or_default();
+            return ctx.fail(Prop::C01, "legals.masked-partition-differs", feat, format!("legals_masked over {} masks that partition the board: {what}; {fen}", parts.len()));
         }
     }
     // now and then: every one of the 64 x 64 x 5 triples
@@ -1398,6 +1472,7 @@ fn one_ply(ctx: &mut Ctx, st: &mut LoopState, ply: u32) -> Step<Flow> {
             Prop::C03 => mon_c03_status(ctx, &st.s, &l1)?,
             Prop::C05 => mon_c05(ctx, &st.s)?,
             Prop::C07 => {
+                text_forms(ctx);
                 mon_c01(ctx, &st.s, &l1, 1)?;
                 mon_c03_status(ctx, &st.s, &l1)?;
                 let _ = op(Op::Print, || format!("{:#?}", st.s.board));
